@@ -38,7 +38,8 @@ SHARD_TIMEOUT = {"quick": 900, "thorough": 7200}
 
 GRAPH_CLASSES = [("names_collide", 300, 6000), ("names_namespace", 200, 4000), ("names_long", 300, 6000), ("names_shuffled", 200, 4000), ("rand", 300, 6000),
                  ("loop", 200, 4000), ("struct", 200, 4000), ("cons", 60, 1000)]
-PROG_CLASSES = [("core", 100, 2000), ("expr", 60, 1000), ("loop", 60, 1000), ("deep", 40, 800)]
+PROG_CLASSES = [("core", 100, 2000), ("expr", 60, 1000), ("loop", 60, 1000), ("deep", 40, 800),
+                ("forms", 40, 800), ("chains", 40, 800), ("dead", 30, 600), ("empty", 30, 600)]
 
 
 def seeds_for(tier, seed):
